@@ -108,23 +108,22 @@ class JSONPathRecursiveDescentSegment(JSONPathSegment):
         # Visit the root node
         yield root
 
-        # Queue root's children
-        queue.extend([(child, depth) for child in _nondeterministic_children(root)])
+        # Queue root's children, which are one level deeper than root.
+        queue.extend(
+            [(child, depth + 1) for child in _nondeterministic_children(root)]
+        )
 
         while queue:
             node, depth = queue.popleft()
+            self._check_depth(node, depth)
             yield node
-
-            if depth >= self.env.max_recursion_depth:
-                raise JSONPathRecursionError(
-                    "recursion limit exceeded", token=self.token
-                )
 
             # Randomly choose to visit child nodes now or queue them for later?
             visit_children = random.choice([True, False])  # noqa: S311
 
             for child in _nondeterministic_children(node):
                 if visit_children:
+                    self._check_depth(child, depth + 1)
                     yield child
 
                     # Queue grandchildren by randomly interleaving them into the
@@ -146,6 +145,17 @@ class JSONPathRecursiveDescentSegment(JSONPathSegment):
                     )
                 else:
                     queue.append((child, depth + 1))
+
+    def _check_depth(self, node: JSONPathNode, depth: int) -> None:
+        """Raise an error if container _node_ is nested too deeply.
+
+        As with deterministic traversal, only arrays and objects count.
+        """
+        if (
+            isinstance(node.value, (dict, list))
+            and depth > self.env.max_recursion_depth
+        ):
+            raise JSONPathRecursionError("recursion limit exceeded", token=self.token)
 
     def __str__(self) -> str:
         return f"..[{', '.join(str(itm) for itm in self.selectors)}]"
